@@ -1496,6 +1496,49 @@ def traj_part(run, r, runner, n):
         run.count("histfile%d" % j, True)
 
 
+def badconfig_part(run, runner):
+    """restraint configurations the manual forbids: each must be refused with an input error (no bias created, no crash)"""
+    v = colvar_block(0, {"w": 1.0, "per": False})
+    vp = colvar_block(1, {"w": 1.0, "per": True, "P": 4.0, "wc": 0.0})
+    H = lambda *l: ["harmonic {", "  name r", "  colvars v0"] + ["  " + x for x in l] + ["}"]
+    Wl = lambda cv, *l: ["harmonicWalls {", "  name r", "  colvars " + cv] + ["  " + x for x in l] + ["}"]
+    bad = [
+        ("harmonic:no-centers", H("forceConstant 1.0")),
+        ("harmonic:two-centers-one-variable", H("centers 1.0 2.0")),
+        ("harmonic:target-centers-count", H("centers 1.0", "targetCenters 1.0 2.0", "targetNumSteps 4")),
+        ("harmonic:negative-force-constant", H("centers 1.0", "forceConstant -1.0")),
+        ("harmonic:centers-and-k-both-moving", H("centers 1.0", "targetCenters 2.0", "targetForceConstant 2.0", "targetNumSteps 4")),
+        ("harmonic:targetNumSteps-missing", H("centers 1.0", "targetCenters 2.0")),
+        ("harmonic:stages-and-lambdaSchedule", H("centers 1.0", "targetForceConstant 2.0", "targetNumSteps 4", "targetNumStages 2", "lambdaSchedule 0 0.5 1")),
+        ("harmonic:work-with-stages", H("centers 1.0", "targetCenters 2.0", "targetNumSteps 4", "targetNumStages 2", "outputAccumulatedWork on")),
+        ("harmonic:decoupling-and-target-k", H("centers 1.0", "decoupling on", "targetForceConstant 2.0", "targetNumSteps 4")),
+        ("walls:none", Wl("v0", "forceConstant 1.0")),
+        ("walls:periodic-one-wall", Wl("v1", "lowerWalls 1.0")),
+        ("walls:upper-below-lower", Wl("v0", "lowerWalls 2.0", "upperWalls 1.0")),
+        ("walls:zero-wall-constant", Wl("v0", "lowerWalls 1.0", "upperWalls 2.0", "lowerWallConstant 0.0", "upperWallConstant 1.0")),
+        ("walls:equal-in-the-period", Wl("v1", "lowerWalls -1.0", "upperWalls 3.0")),
+        ("linear:periodic-variable", ["linear {", "  name r", "  colvars v1", "  centers 1.0", "}"]),
+        ("histogram:zero-width", ["histogramRestraint {", "  name r", "  colvars v0", "  lowerBoundary 0", "  upperBoundary 2", "  width 0", "  refHistogram 1 1", "}"]),
+        ("histogram:upper-below-lower", ["histogramRestraint {", "  name r", "  colvars v0", "  lowerBoundary 2", "  upperBoundary 0", "  width 0.5", "  refHistogram 1 1", "}"]),
+        ("histogram:two-references", ["histogramRestraint {", "  name r", "  colvars v0", "  lowerBoundary 0", "  upperBoundary 1", "  width 0.5", "  refHistogram 1 1", "  refHistogramFile nofile.dat", "}"]),
+    ]
+    scn = []
+    for k, (name, blk) in enumerate(bad):
+        scn += ["echo CASE %d" % k, "natoms 2", "new", "config EOF"] + v + vp + blk + ["EOF", "pos 1 0 0 %s" % hx(0.5), "pos 2 0 0 %s" % hx(0.5), "step", "rdump", "echo END %d" % k]
+    rc2, iout, e2 = V.run_lines(runner.unit, scn, cwd=runner.scratch)
+    impl = parse_impl(iout)
+    for k, (name, blk) in enumerate(bad):
+        cs = impl.get(k)
+        run.dist("invalid-configuration")
+        if cs is None or not cs["complete"]:
+            run.violation("config:invalid-crashes:" + name, "the configuration %r did not run to completion (rc %d)" % (blk, rc2), {"kind": "badconfig", "block": blk})
+            continue
+        conf = [l for l in cs["config"] if l.startswith("CONFIG")]
+        run.count("badconfig:" + name, True)
+        if not conf or "err=ok" in conf[0] or cs["steps"]:
+            run.violation("config:invalid-accepted:" + name, "the forbidden configuration %r was accepted: %r, biases after it %d" % (blk, conf, len(cs["steps"])), {"kind": "badconfig", "block": blk})
+
+
 def tsf_part(run, runner):
     """timeStepFactor f > 1: the bias is updated every f steps.  Continuous schedules are evaluated at the updated steps
     (and are stale in between, by design); staged schedules test exact step numbers and miss them (recorded finding)."""
@@ -1749,6 +1792,7 @@ def check(run):
     kman_part(run, r, runner, 40 if quick else 1500)
     script_part(run, r, runner, 30 if quick else 600)
     traj_part(run, r, runner, 30 if quick else 600)
+    badconfig_part(run, runner)
     tsf_part(run, runner)
     ti_part(run, r, runner, 40 if quick else 1500)
     run.cov["correspondence"].update({"scenarios": len(cases), "regression_scenarios": len(wit)})
